@@ -33,6 +33,24 @@ pub proof fn lemma_filter_true<A>(s: Seq<A>, p: spec_fn(A) -> bool)
     }
 }
 
+/// every element satisfying p survives the filter
+pub proof fn lemma_filter_contains<A>(s: Seq<A>, p: spec_fn(A) -> bool, k: int)
+    requires 0 <= k < s.len(), p(s[k])
+    ensures s.filter(p).contains(s[k])
+    decreases s.len()
+{
+    reveal(Seq::filter);
+    if k == s.len() - 1 {
+        let f = s.filter(p);
+        assert(f == s.drop_last().filter(p).push(s.last()));
+        assert(f[f.len() - 1] == s[k]);
+    } else {
+        lemma_filter_contains(s.drop_last(), p, k);
+        let f0 = s.drop_last().filter(p);
+        let n = choose|n: int| 0 <= n < f0.len() && f0[n] == s.drop_last()[k];
+        assert(s.filter(p)[n] == s[k]);
+    }
+}
 pub proof fn lemma_filter_push<A>(s: Seq<A>, x: A, p: spec_fn(A) -> bool)
     ensures s.push(x).filter(p) == (if p(x) { s.filter(p).push(x) } else { s.filter(p) })
 {
